@@ -1416,7 +1416,8 @@ fn main() {
     // watchdog: a call of the implementation that does not return (a loop that never ends) must not
     // hang the check.  No progress for BPT_WATCHDOG seconds (default 60): the history is reported
     // as a violation of whatever property is being checked ("VIOL * ...") and the process exits 4.
-    {
+    // (not under Miri, which treats a thread still alive when main returns as an error; the Miri sample is short)
+    if !cfg!(miri) {
         let viol_path = args[3].clone();
         let secs: u64 = std::env::var("BPT_WATCHDOG").ok().and_then(|s| s.parse().ok()).unwrap_or(60);
         std::thread::spawn(move || {
